@@ -53,7 +53,9 @@ class DDLParser(Parser, Dialects):
             t.type = "LT"
             self.lexer.lt_open += t.value.count("<")
         if ">" in t.value and not self.lexer.check:
-            t.type = "RT"
+            if "<" not in t.value:
+                # a token holding both brackets (ARRAY<INT>) opens a type, it does not close one
+                t.type = "RT"
             self.lexer.lt_open -= t.value.count(">")
         return t
 
